@@ -35,8 +35,10 @@ def units(ctx):
     for sc in lattice.scales_for(ctx.thorough, ctx.seed, 2):
         for spec in fam2:
             us.append(("rel", spec, 2, sc, ctx.seed))
+            us.append(("rel", spec, 2, sc, ctx.seed, 1))  # same lattice translated by 2^17 steps (exact in float64)
         for spec in fam3:
             us.append(("rel", spec, 3, sc, ctx.seed))
+            us.append(("rel", spec, 3, sc, ctx.seed, 1))
     # geometry sweeps
     step = 1
     th = [t + (ctx.seed % 10) / 10.0 for t in range(1, 179, step)]
@@ -63,13 +65,15 @@ def _is_int(W):
     return bool(np.all(W == np.round(W)))
 
 
-def check_relation(spec, m, sc, seed, res, only=None):
+def check_relation(spec, m, sc, seed, res, only=None, far=0):
     core.import_vopy()
     order = cones.make_order(spec)
     W = order.ordering_cone.W
     intW = _is_int(W)
     step = sc / 2.0
     off = lattice.offset_for(seed, m, step)
+    if far:
+        off = off + (2.0 ** 17) * step * np.array([1.0, -1.0, 1.0][:m])
     pts = [p * step + off for p in lattice.grid(m, -2, 2)]
     n = len(pts)
     tiny = 1e-12 * max(1.0, sc)
@@ -95,7 +99,7 @@ def check_relation(spec, m, sc, seed, res, only=None):
                 core.violation(
                     PROPERTY,
                     {"kind": "dominates-vs-definition", "cone": cones.name(spec)},
-                    {"mode": "rel", "spec": spec, "m": m, "sc": sc, "seed": seed},
+                    {"mode": "rel", "spec": spec, "m": m, "sc": sc, "seed": seed, "far": far},
                     exact,
                     got,
                     f"dominates({a.tolist()},{b.tolist()}) = {got}, exact W(a-b)>=0 is {exact} for cone {cones.name(spec)}",
@@ -107,7 +111,7 @@ def check_relation(spec, m, sc, seed, res, only=None):
         if not D[i, i]:
             res["violations"].append(
                 core.violation(PROPERTY, {"kind": "reflexivity", "cone": cones.name(spec)},
-                               {"mode": "rel", "spec": spec, "m": m, "sc": sc, "seed": seed},
+                               {"mode": "rel", "spec": spec, "m": m, "sc": sc, "seed": seed, "far": far},
                                True, False, f"not reflexive at {pts[i].tolist()}"))
             return
     # transitivity on all triples (relation as computed by the implementation)
@@ -120,7 +124,7 @@ def check_relation(spec, m, sc, seed, res, only=None):
         i, j = np.argwhere(bad)[0]
         res["violations"].append(
             core.violation(PROPERTY, {"kind": "transitivity", "cone": cones.name(spec)},
-                           {"mode": "rel", "spec": spec, "m": m, "sc": sc, "seed": seed},
+                           {"mode": "rel", "spec": spec, "m": m, "sc": sc, "seed": seed, "far": far},
                            True, False, f"transitivity fails between {pts[i].tolist()} and {pts[j].tolist()}"))
         return
     # antisymmetry for pointed cones (all family members are pointed)
@@ -128,7 +132,7 @@ def check_relation(spec, m, sc, seed, res, only=None):
         if D[i, j] and D[j, i] and not (bnd[i, j] or bnd[j, i]):
             res["violations"].append(
                 core.violation(PROPERTY, {"kind": "antisymmetry", "cone": cones.name(spec)},
-                               {"mode": "rel", "spec": spec, "m": m, "sc": sc, "seed": seed},
+                               {"mode": "rel", "spec": spec, "m": m, "sc": sc, "seed": seed, "far": far},
                                False, True, f"{pts[i].tolist()} and {pts[j].tolist()} dominate each other"))
             return
     # translation by every lattice vector, exact scalings (powers of two), scaling by 3 off-boundary
@@ -143,7 +147,7 @@ def check_relation(spec, m, sc, seed, res, only=None):
                 # (a+t)-(b+t) may round differently from a-b only off the dyadic lattice: never here
                 res["violations"].append(
                     core.violation(PROPERTY, {"kind": "translation", "cone": cones.name(spec)},
-                                   {"mode": "rel", "spec": spec, "m": m, "sc": sc, "seed": seed},
+                                   {"mode": "rel", "spec": spec, "m": m, "sc": sc, "seed": seed, "far": far},
                                    bool(D[i, j]), g, f"translation by {t.tolist()} changes dominates({pts[i].tolist()},{pts[j].tolist()})"))
                 return
     for c in (0.5, 2.0, 4.0, 3.0):
@@ -159,7 +163,7 @@ def check_relation(spec, m, sc, seed, res, only=None):
             if g != D[i, j]:
                 res["violations"].append(
                     core.violation(PROPERTY, {"kind": "scaling", "cone": cones.name(spec)},
-                                   {"mode": "rel", "spec": spec, "m": m, "sc": sc, "seed": seed},
+                                   {"mode": "rel", "spec": spec, "m": m, "sc": sc, "seed": seed, "far": far},
                                    bool(D[i, j]), g, f"scaling by {c} changes dominates({pts[i].tolist()},{pts[j].tolist()})"))
                 return
     # batched is_inside on the whole difference lattice vs single calls, list vs ndarray input
@@ -170,14 +174,14 @@ def check_relation(spec, m, sc, seed, res, only=None):
     if not (np.array_equal(batched[~bnd], D[~bnd]) and np.array_equal(lst[~bnd], D[~bnd])):
         res["violations"].append(
             core.violation(PROPERTY, {"kind": "batched-vs-single", "cone": cones.name(spec)},
-                           {"mode": "rel", "spec": spec, "m": m, "sc": sc, "seed": seed},
+                           {"mode": "rel", "spec": spec, "m": m, "sc": sc, "seed": seed, "far": far},
                            "equal", "differs", "batched / list-input is_inside differs from single-vector calls"))
         return
     single = order.ordering_cone.is_inside(pts[0] - pts[1])
     if np.asarray(single).shape != (1,):
         res["violations"].append(
             core.violation(PROPERTY, {"kind": "single-shape", "cone": cones.name(spec)},
-                           {"mode": "rel", "spec": spec, "m": m, "sc": sc, "seed": seed},
+                           {"mode": "rel", "spec": spec, "m": m, "sc": sc, "seed": seed, "far": far},
                            "(1,)", str(np.asarray(single).shape), "single-vector is_inside shape"))
     res["outcomes"].append(f"{cones.name(spec)}:{int(D.sum())}")
     if len(res["samples"]) < 2:
@@ -310,7 +314,7 @@ def check_named_geom(res):
 def run_unit(unit):
     res = core.new_result()
     if unit[0] == "rel":
-        check_relation(unit[1], unit[2], unit[3], unit[4], res)
+        check_relation(unit[1], unit[2], unit[3], unit[4], res, far=(unit[5] if len(unit) > 5 else 0))
     elif unit[0] == "theta_geom":
         check_theta_geom(unit[1], res)
     elif unit[0] == "ice_geom":
@@ -325,7 +329,7 @@ def replay_case(case):
     if case["mode"] == "rel":
         spec = case["spec"]
         spec = tuple(tuple(tuple(r) for r in s) if isinstance(s, list) else s for s in spec)
-        check_relation(spec, case["m"], case["sc"], case["seed"], res)
+        check_relation(spec, case["m"], case["sc"], case["seed"], res, far=case.get("far", 0))
     elif case["mode"] == "theta_geom":
         check_theta_geom(case["thetas"], res)
     elif case["mode"] == "ice_geom":
